@@ -1012,6 +1012,11 @@ func (f *Field) SetValue(columnID uint64, value int64) (changed bool, err error)
 			}
 			bitDepth := bitDepth(uvalue)
 
+			// Another writer may have grown the depth since it was read
+			// above; it never shrinks.
+			if bitDepth <= bsig.BitDepth {
+				return nil
+			}
 			bsig.BitDepth = bitDepth
 			f.options.BitDepth = bitDepth
 			return f.saveMeta()
@@ -1231,6 +1236,11 @@ func (f *Field) importValue(columnIDs []uint64, values []int64, options *ImportO
 		if err := func() error {
 			f.mu.Lock()
 			defer f.mu.Unlock()
+			// Another writer may have grown the depth since it was read
+			// above; it never shrinks.
+			if requiredDepth <= bsig.BitDepth {
+				return nil
+			}
 			bsig.BitDepth = requiredDepth
 			f.options.BitDepth = requiredDepth
 			return f.saveMeta()
